@@ -38,7 +38,14 @@ claim("C19", "flag-fixed CFG reachability (dry-run purity and validation complet
       "out.go is dropped; (R19f) no description error and no validating callee is reachable only when the flag is false without a dry-side twin. "
       "Byte contents, ifExists merge semantics and fault injection are not decided.", NOTE, "DESIGN.md §3 C19")
 
-for pid in ["C02","C04","C05","C07","C09","C10","C11","C12","C13","C15","C16","C17","C18","C20"]:
+claim("C20", "table extraction over go/ssa (outcome switch, runFailed dependence), TS-SCCP of isLiteralTrue/False over all value types, error-propagation and control-dependence checks from leaf to exit status",
+      "Decides the decision tables between a leaf and the exit status: (R20a) every Outcome constant is counted in its own counter, runFailed depends "
+      "on the counter of every non-passing outcome RunExpr assigns, Report errors exactly when runFailed; (R20b) only a TrueSet can classify as "
+      "passed (for all values, by type), Passed is stored only under that test, is not the zero Outcome, and each leaf appends one result; (R20c) "
+      "errors of getTestFiles/ReadFile/Compile/RunExpr/Report reach RunTests' result, doTest and os.Exit(1); (R20d) ForeachLeaf recurses for exactly "
+      "Array, Dict, Tuple and reports everything else as a leaf. Leaf path strings and the recursion over all trees are not decided.", NOTE, "DESIGN.md §3 C20")
+
+for pid in ["C02","C04","C05","C07","C09","C10","C11","C12","C13","C15","C16","C17","C18"]:
     na(pid, "check under construction in this session (see DESIGN.md §3); not claimed until its rules are registered")
 na("C14", "agreement of a hand-written array matcher with strings/bytes over all sequences is a relation between runtime values computed by "
           "loops with data-dependent indices; no sound structural clause with teeth exists (DESIGN.md §3 C14)")
